@@ -246,11 +246,28 @@ Qed.
 
 Ltac pframe := eapply PH_frame; [first [apply Nrel_ret | apply Nrel_setk | apply Nrel_refl]|].
 
+Lemma PH_wait_all_op : forall progs s v c f, Inv1 s -> Inv2 s -> PH s -> head_run s v -> PH (wait_all_op progs s v c f).
+Proof.
+  intros progs s v c f I1 I2 P Hr. unfold wait_all_op, getth.
+  assert (W : PH (wait_check progs s v c f)).
+  { unfold wait_check, getth, getvc. destruct (wait_cond s v); [|pframe; auto].
+    destruct (v_sleepq (s_vc s v)).
+    - apply PH_yield; [now apply inv1_setk|now apply inv2_setk|pframe; auto|hr_n].
+    - destruct (expired _ _).
+      + apply PH_yield; [now apply inv1_setk|now apply inv2_setk|pframe; auto|hr_n].
+      + destruct (lock_free _); auto. apply PH_sleep; [now apply inv1_setk|now apply inv2_setk|pframe; auto|hr_n]. }
+  destruct (Nat.eqb c v); [|destruct f; [apply (PH_frame s); [apply Nrel_same; reflexivity|auto]|pframe; auto]].
+  destruct (th_k (s_th s c)) as [|[|[|k]]]; auto.
+  - pose proof (Nrel_sen s c) as X. destruct (set_error_number s c) as [[s1 r] e]. cbn in X.
+    pframe. eapply PH_frame; eauto.
+  - pframe; auto.
+Qed.
+
 Lemma PH_exec_op : forall progs s v c o, Inv1 s -> Inv2 s -> PH s -> head_run s v -> v_pend (s_vc s v) = PNone ->
   PH (exec_op progs s v c o).
 Proof.
   intros progs s v c o I1 I2 P Hr Pn. unfold exec_op, getth, getvc.
-  destruct o as [d| |j e|j jn ws|j| | |j|j u].
+  destruct o as [d| |j e|j jn ws|j| | |j|j u| |]; try now apply PH_wait_all_op.
   - destruct (th_k (s_th s c)) as [|[|k]].
     + destruct (expired _ _).
       * apply PH_yield; [now apply inv1_setk|now apply inv2_setk|pframe; auto|hr_n].
@@ -314,9 +331,10 @@ Qed.
 Lemma PH_gstep : forall progs s l, Inv1 s -> Inv2 s -> PH s -> PH (gstep progs s l).
 Proof.
   intros progs s l I1 I2 P. unfold gstep. destruct (steal_ok s l) eqn:G; [|exact P].
-  unfold step. destruct (s_stuck s); [exact P|].
+  unfold step. destruct (s_stuck s); [exact P|]. destruct (frozen _ _ _); [exact P|].
   destruct l as [v|v|v|v u t|d].
-  - destruct (Nat.ltb _ _); [|exact P]. now apply PH_step_vcpu.
+  - destruct (Nat.ltb _ _); [|exact P].
+    destruct (pend_to_offline _ _ _); [apply (PH_frame s); [apply Nrel_same; reflexivity|exact P]|]. now apply PH_step_vcpu.
   - destruct (_ && _); [|exact P]. unfold do_drain. now apply PH_drain_list.
   - destruct (_ && _); [|exact P]. eapply PH_frame; [apply Nrel_resume|exact P].
   - destruct (_ && _); [|exact P]. now apply PH_steal.
